@@ -2,6 +2,19 @@
 
 PROPS = {}
 
+
+def _textual_rewrite(pairs, must=True):
+    """build an overlay generator: copy a repo file replacing call targets (regenerated from the current tree on every run)"""
+    def gen(src, out):
+        s = open(src).read()
+        for a, b in pairs:
+            if must and a not in s:
+                raise RuntimeError("rewrite anchor %r not found in %s" % (a, src))
+            s = s.replace(a, b)
+        open(out, "w").write(s)
+    return gen
+
+
 NOT_APPLICABLE = {
     "C05": "whole-framework data-race freedom over all goroutine interleavings (goroutine creation, channels, errgroup, ants pool, real epoll) has no finite SMT encoding within reach of a hand-written go/ssa encoder; see DESIGN.md section 6",
     "C06": "liveness/ordering of shutdown across the stop goroutine, every loop goroutine, ticker and errgroup.Wait needs the same whole-program concurrent model as C05; sequential lemmas are decided under C04/C03; see DESIGN.md section 6",
@@ -90,5 +103,40 @@ PROPS["C12"] = {
          "cfg": {"vcfg": {"nodes": 2, "reader_calls": 2}}, "cfg_thorough": {"vcfg": {"nodes": 3, "reader_calls": 3}}},
         {"name": "rbpool", "pkgdir": "pkg/pool/ringbuffer", "files": ["harness/rbpool/c12_rbpool.go"], "mode": "int", "contracts": ["byteslice", "rb_calibrate_havoc"],
          "extra": [("pkg/buffer/ring", "harness/ring/ring_common.go"), ("pkg/buffer/ring", "harness/ring/ring_export.go")]},
+    ],
+}
+
+PROPS["C17"] = {
+    "level": "other",
+    "level_text": "Bounded symbolic execution of the real conversion code in pkg/socket (IPToSockaddr, SockaddrTo*Addr, zone index<->name incl. itod/dtoi, net.IP.To4/To16) over symbolic IP bytes, lengths 0..20, ports, zone ids < 0xFFFFFF and a symbolic two-entry interface table; round-trip obligations discharged by z3.",
+    "level_note": "Trusted: go/ssa lowering, SSA->SMT translation (counterexamples replayed natively), z3. net.InterfaceByName/ByIndex are an environment stub (two interfaces with symbolic indices), net.IPv4 is modelled by its specification, byteslice pool by the C12 contract. Truthful reporting on live connections (RemoteAddr/LocalAddr of accepted connections, zone strings recycled through the pool) is checked in the gnet-package unit.",
+    "design_ref": "DESIGN.md section 5 (C17)",
+    "explanation": "Round trips net.Addr -> unix.Sockaddr -> net.Addr and back, with content compared pointwise at a free byte index.",
+    "bounds": {"ip_length": "0..20 bytes", "zone": "'', a table interface name, or the decimal form of any id in [1, 0xFFFFFF) without interface", "interfaces": "2 with symbolic distinct indices"},
+    "outside": ["zone ids >= 0xFFFFFF (dtoi refuses them, mirroring package net)", "name resolution", "what the kernel reports"],
+    "assumptions": ["interface table stub", "net.IPv4 specification stub"],
+    "units": [
+        {"name": "socket", "pkgdir": "pkg/socket", "files": ["harness/socket/c17_sockaddr.go"], "mode": "int", "contracts": ["byteslice", "net_ipv4"], "unwind": 12,
+         "stub_values": {"github.com/panjf2000/gnet/v2/pkg/socket.maxListenerBacklog": 128},
+         "rewrites": {"pkg/socket/sockaddr.go": _textual_rewrite([("net.InterfaceByName(", "vstubInterfaceByName("), ("net.InterfaceByIndex(", "vstubInterfaceByIndex(")])}},
+    ],
+}
+
+GNET_SKIP_FNS = []
+GNET_STUB_VALUES = {"github.com/panjf2000/gnet/v2/pkg/socket.maxListenerBacklog": 128}
+
+PROPS["C15"] = {
+    "level": "other",
+    "level_text": "Symbolic execution of the real load-balancer code on N real eventloop objects: N concrete per path (1..16 quick, 1..256 thorough), round-robin cursor (< 2^63), per-loop connection counts and the remote-address string (CRC32 as an uninterpreted pure function) symbolic; obligations discharged by z3.",
+    "level_note": "Trusted: go/ssa lowering, SSA->SMT translation (counterexamples replayed natively), z3. hash/crc32.ChecksumIEEE is an uninterpreted pure function (any uint32, equal for equal input). That the loop chosen by next() is the loop whose callbacks run is checked for accept0/accept in the loop-step unit (C04/C07 harness family).",
+    "design_ref": "DESIGN.md section 5 (C15)",
+    "explanation": "Real next()/register()/hash() executed from go/ssa for every loop count within the bound.",
+    "bounds": {"loops": "N in 1..16 (quick) / 1..256 (thorough)", "round_robin_cursor": "< 2^63", "k*N unrolling": "N<=4, k<=3", "address": "<= 64 bytes"},
+    "outside": ["32-bit int targets (negating MinInt32)", "cursor >= 2^63"],
+    "assumptions": ["crc32 uninterpreted"],
+    "units": [
+        {"name": "gnet-lb", "pkgdir": ".", "files": ["harness/gnet/c15_lb.go"], "mode": "int", "unwind": 300, "contracts": ["byteslice", "ringbuffer"],
+         "stub_values": GNET_STUB_VALUES,
+         "cfg": {"vcfg": {"maxN": 16, "maxNcount": 4, "maxNlc": 6}}, "cfg_thorough": {"vcfg": {"maxN": 256, "maxNcount": 4, "maxNlc": 8}}},
     ],
 }
